@@ -193,7 +193,7 @@ class Hist:
         self.snap = [int(x) for x in out.split()[1:]]
         self.init_snap = list(self.snap)
         self.steps = []
-        self.queries = []
+        self.pending_q = []
         self.n_init = 2 + nt
         self.n_contracts = self.n_init + 2 * maxp
         self.n_accounts = nu + self.n_contracts
@@ -258,9 +258,40 @@ class Hist:
 
     # ---- acting
     def query(self, line):
+        """ask the contracts a question in the current state; the answer is compared with the model's
+        (it travels with the next operation of the history)"""
         out = self.proc.ask("q " + line)
         t = out.split()
-        return [int(x) for x in t[1:]] if t[0] == "ok" else None
+        res = [int(x) for x in t[1:]] if t[0] == "ok" else None
+        self.pending_q.append((line, res))
+        return res
+
+    def pair_for(self, a, b):
+        for p in self.pairs():
+            pa = self.pair_assets(p)
+            if (pa[0] == a and pa[1] == b) or (pa[0] == b and pa[1] == a):
+                return p
+        return None
+
+    def compose_queries(self, amount, ops, reverse):
+        """answer the router's (reverse) simulation by composing the PAIR queries hop by hop; recorded as a
+        separate query so that the monitor can compare the two implementation answers"""
+        amt = amount
+        hops = list(reversed(ops)) if reverse else list(ops)
+        for (o, a) in hops:
+            p = self.pair_for(o, a)
+            if p is None:
+                amt = None
+                break
+            out = self.proc.ask("q %s %d %s %d" % ("revsim" if reverse else "sim", p, a_line(a if reverse else o), amt)).split()
+            if out[0] != "ok":
+                amt = None
+                break
+            amt = int(out[1])
+        if not ops:
+            amt = None
+        self.pending_q.append(("%s %d %s" % ("rrevsimc" if reverse else "rsimc", amount, ops_line(ops)), None if amt is None else [amt]))
+        return amt
 
     def do(self, o, quote=None):
         out = self.proc.ask("op " + op_line(o)).split()
@@ -272,10 +303,13 @@ class Hist:
         delta = [(rest[2 * i], rest[2 * i + 1]) for i in range(nd_)]
         for i, v in delta:
             self.snap[i] = v
-        self.steps.append((o, ok, extras, list(quote) if quote else [], delta))
+        self.steps.append((o, ok, extras, list(quote) if quote else [], delta, self.pending_q))
+        self.pending_q = []
         return ok, extras
 
     def finish(self):
+        if self.pending_q:
+            self.do(("router_assert_min", USER0, ("n", 0), 0, 0, USER0))   # a rejected call that carries the last queries
         self.proc.close()
         return HistCase(self)
 
@@ -295,8 +329,8 @@ class HistCase(Case):
 
     def steps_coq(self):
         parts = []
-        for (o, ok, extras, quote, delta) in self.h.steps:
-            parts.append("HS %s %s %s %s %s" % (op_coq(o), "true" if ok else "false", cq(extras), cq(quote),
+        for (o, ok, extras, quote, delta, qs) in self.h.steps:
+            parts.append("HS %s %s %s %s %s %s" % (queries_coq(qs), op_coq(o), "true" if ok else "false", cq(extras), cq(quote),
                                                "[" + "; ".join("(%s, %s)" % (cq(i), cq(v)) for i, v in delta) + "]"))
         return "[" + ";\n ".join(parts) + "]"
 
@@ -320,7 +354,29 @@ class HistCase(Case):
                 "world": {"users": h.nu, "denoms": h.nd, "tokens": h.nt, "maxpairs": h.maxp, "user_balance": str(h.ubal),
                           "factory_balance": str(h.fbal), "token_decimals": h.tdecs},
                 "steps": [{"op": op_line(s[0]), "ok": s[1], "swap_attrs": [str(x) for x in s[2]],
-                           "quote": [str(x) for x in s[3]], "changed_slots": len(s[4])} for s in h.steps]}
+                           "quote": [str(x) for x in s[3]], "changed_slots": len(s[4]),
+                           "queries": [q[0] for q in s[5]]} for s in h.steps]}
+
+
+def queries_coq(qs):
+    out = []
+    for line, res in qs:
+        c = _Cur(line.split())
+        k = c.nx()
+        if k == "sim":
+            t = "QSim %s %s %s" % (cq(c.num()), a_coq(c.asset()), cq(c.num()))
+        elif k == "revsim":
+            t = "QRevSim %s %s %s" % (cq(c.num()), a_coq(c.asset()), cq(c.num()))
+        elif k == "rsim":
+            t = "QRSim %s %s" % (cq(c.num()), ops_coq(c.ops()))
+        elif k == "rsimc":
+            t = "QRSimCompose %s %s" % (cq(c.num()), ops_coq(c.ops()))
+        elif k == "rrevsimc":
+            t = "QRRevSimCompose %s %s" % (cq(c.num()), ops_coq(c.ops()))
+        else:
+            t = "QRRevSim %s %s" % (cq(c.num()), ops_coq(c.ops()))
+        out.append("(%s, %s)" % (t, "None" if res is None else "Some " + cq(res)))
+    return "[" + "; ".join(out) + "]"
 
 
 MONITORS = {"C10", "C01", "C02", "C03", "C04", "C05", "C07", "C09", "C11", "C12", "C13", "C14", "C16", "C17", "C20"}
@@ -332,6 +388,14 @@ def replay_hist(j):
     h = Hist(w["users"], w["denoms"], w["tokens"], w["maxpairs"], int(w["user_balance"]), int(w["factory_balance"]),
              w["token_decimals"], "replay")
     for s in j["steps"]:
+        for ql in s.get("queries", []):
+            kq = ql.split()[0]
+            if kq in ("rsimc", "rrevsimc"):
+                cc = _Cur(ql.split()[1:])
+                h.compose_queries(cc.num(), cc.ops(), kq == "rrevsimc")
+            else:
+                h.query(ql)
+        pend, h.pending_q = h.pending_q, []
         out = h.proc.ask("op " + s["op"]).split()
         ok = out[0] == "ok"
         ne = int(out[1])
@@ -341,7 +405,7 @@ def replay_hist(j):
         delta = [(rest[2 * i], rest[2 * i + 1]) for i in range(nd_)]
         for i, v in delta:
             h.snap[i] = v
-        h.steps.append((parse_op_line(s["op"]), ok, extras, [int(x) for x in s.get("quote", [])], delta))
+        h.steps.append((parse_op_line(s["op"]), ok, extras, [int(x) for x in s.get("quote", [])], delta, pend))
     return h.finish()
 
 
@@ -621,6 +685,10 @@ def general_histories(rng, tier, n_hist=None, steps=None):
             if not pairs:
                 break
             p = rng.choice(pairs)
+            if rng.random() < 0.25:
+                a0, a1 = h.pair_assets(p)
+                r0, r1 = h.reserves(p)
+                h.query("revsim %d %s %d" % (p, a_line(rng.choice([a0, a1])), max(1, min(r0, r1) // rng.choice([2, 10, 1000, 10 ** 6]))))
             if r < 0.22:
                 h.do(gen_provide(h, rng, p, u))
             elif r < 0.55:
@@ -855,6 +923,12 @@ def router_histories(rng, tier):
             offer = ops[0][0] if ops else ("n", 0)
             amount = max(1, min(h.abal(offer, u), loguniform(rng, 1, 50)))
             quote = h.query("rsim %d %s" % (amount, ops_line(ops))) if ops else None
+            if ops and rng.random() < 0.7:
+                ask_amt = max(1, (quote[0] if quote else amount) // rng.choice([1, 2, 10]))
+                h.query("rrevsim %d %s" % (ask_amt, ops_line(ops)))
+                h.compose_queries(ask_amt, ops, True)
+            if ops and rng.random() < 0.5:
+                h.compose_queries(amount, ops, False)
             m = None
             if quote is not None and rng.random() < 0.8:
                 m = max(0, quote[0] + rng.choice([-1, -1, 0, 0, 0, 1, -quote[0], -(quote[0] // 2), 2 ** 127 - quote[0]]))
